@@ -157,7 +157,7 @@ def run(pid, tier, seed):
     t0 = time.time()
     if prog.guard_symbol("a.b_c.h") != "A_B_C_H":
         raise core.HarnessError("guard symbol self-test failed")
-    shards, n = (8, 25) if tier == "quick" else (16, 1000)
+    shards, n = (16, 40) if tier == "quick" else (16, 1000)
     camp = core.Campaign()
     for name, rc in core.regress_cases(pid):
         for k, what in replay(pid, rc["case"]):
